@@ -29,6 +29,8 @@ type op struct {
 
 type c02Case struct {
 	Ops []op `json:"ops"`
+	// Hooks installs the cron state hooks (as sys.System does).
+	Hooks bool `json:"hooks,omitempty"`
 }
 
 var c02Ids = []string{"", "f1", "f2", "f3", "f4", "f5"}
@@ -88,6 +90,7 @@ func genC02(t *rapid.T) c02Case {
 			c.Ops = append(c.Ops, op{K: "search", Doc: p})
 		}
 	}
+	c.Hooks = rapid.IntRange(0, 2).Draw(t, "hooks") == 0
 	return c
 }
 
@@ -96,6 +99,9 @@ func runC02(c c02Case) *vlib.Outcome {
 	sawOverwriteOrRem := false
 	for _, kind := range []string{"indexed", "linear"} {
 		w := newWorld(kind, nil, o)
+		if c.Hooks {
+			w.withCronHooks()
+		}
 		if _, err := w.open("L"); err != nil {
 			o.Fail("OPEN", "cannot create location: %v", err)
 			return o
